@@ -94,7 +94,12 @@ Record Vinv (v : view) : Prop := {
   vi_dae : vfz v = false -> dae false (vP v) = [];
   vi_eof : has_eof (vP v) = true -> vrmsw v = true;
   (* end-of-stream after all data: an orderly shutdown means everything read was delivered *)
-  vi_clean : vfz v = true -> vwfault v = true \/ (vD v = vA v /\ vrsr v = true)
+  vi_clean : vfz v = true -> vwfault v = true \/ (vD v = vA v /\ vrsr v = true);
+  (* how the shut flags of the two ends follow each other (used for "the peer frees an
+     identifier before it sees its re-use") *)
+  vi_n1 : vrmsw v = true -> vwmsr v = true \/ has_eof (vP v) = true;
+  vi_n2 : vstop v = true -> vwmsr v = true;
+  vi_n3 : vwmsr v = true -> vrmsw v = true \/ vstop v = true
 }.
 
 Inductive vstep (v : view) : view -> Prop :=
@@ -115,6 +120,7 @@ Inductive vstep (v : view) : view -> Prop :=
     vstep v (mkView (vA v) (vX v) (vP v) (vY v) (vD v) (vrsr v) true (vwmsr v) (vfz v) stop' (vwfault v))
 | VS_stop_gone stop' :
     (stop' = true -> vstop v = true) ->
+    (vstop v = true -> stop' = false -> vrmsw v = true) ->
     vstep v (mkView (vA v) (vX v) (vP v) (vY v) (vD v) (vrsr v) (vrmsw v) (vwmsr v) (vfz v) stop' (vwfault v))
 | VS_writer d Y' fz' wmsr' stop' wfault' :
     (vfz v = true -> d = []) -> (vfz v = true -> fz' = true) -> (vwmsr v = true -> wmsr' = true) ->
@@ -123,6 +129,9 @@ Inductive vstep (v : view) : view -> Prop :=
     (vwmsr v = false -> wmsr' = true -> fz' = true) ->
     (stop' = true -> vstop v = true \/ fz' = true) ->
     (vfz v = false -> fz' = true -> wfault' = true \/ (vwmsr v = true /\ flat (vY v) = d /\ flat Y' = [])) ->
+    (stop' = true -> vstop v = true \/ wmsr' = true) ->
+    (vstop v = true -> stop' = true) ->
+    (vwmsr v = false -> wmsr' = true -> stop' = true) ->
     vstep v (mkView (vA v) (vX v) (vP v) Y' (vD v ++ d) (vrsr v) (vrmsw v) wmsr' fz' stop' wfault')
 | VS_pop_data f P' :
     vP v = f :: P' -> sf_cmd f = CData ->
@@ -156,11 +165,11 @@ Proof. reflexivity. Qed.
 
 Theorem Vinv_step v v' : Vinv v -> vstep v v' -> Vinv v'.
 Proof.
-  intros [Hpipe Hpre Hmsw Hstop Hmsr Hdae Heof Hclean] Hs.
+  intros [Hpipe Hpre Hmsw Hstop Hmsr Hdae Heof Hclean Hn1 Hn2 Hn3] Hs.
   destruct Hs as [ | r new X' rsr' rmsw' Hr Hrsr Hrmsw Hcons Hneweof Hnoeof
                    | stop' Hst Hst'
-                   | stop' Hst'
-                   | d Y' fz' wmsr' stop' wfault' Hd Hfz Hwm Hwf Hcons Hnewmsr Hst Hshut
+                   | stop' Hst' Hgone
+                   | d Y' fz' wmsr' stop' wfault' Hd Hfz Hwm Hwf Hcons Hnewmsr Hst Hshut Hst2 Hst3 Hst4
                    | f P' HP Hc | f P' HP Hw | f P' HP Hc | f P' HP Hc1 Hc2 ].
   - constructor; assumption.
   - (* reader *)
@@ -169,6 +178,13 @@ Proof.
       destruct Hcons as [E|(_ & E1 & _ & dr & E)].
       - symmetry in E. apply app_eq_nil in E. exact E.
       - symmetry in E. apply app_eq_nil in E. destruct E as [E _]. auto. }
+    assert (Hn1' : rmsw' = true -> vwmsr v = true \/ has_eof (vP v ++ new) = true).
+    { intros Hm. rewrite has_eof_app. destruct (vrmsw v) eqn:Eold.
+      - destruct (Hn1 eq_refl) as [C|C]; [left; exact C|right; rewrite C; reflexivity].
+      - destruct (Hneweof eq_refl Hm) as (_ & _ & pre & post & -> & He & _). right.
+        rewrite has_eof_app, He. cbn. apply orb_true_r. }
+    assert (Hn3' : vwmsr v = true -> rmsw' = true \/ vstop v = true).
+    { intros Hm. destruct (Hn3 Hm) as [C|C]; [left; apply Hrmsw; exact C|right; exact C]. }
     constructor; cbn [vA vX vP vY vD vrsr vrmsw vwmsr vfz vstop vwfault].
     + intros Hf. specialize (Hpipe Hf). rewrite data_cat_app.
       destruct Hcons as [E|(Em & EX & _ & dr & E)].
@@ -203,10 +219,20 @@ Proof.
            specialize (Hrmsw eq_refl). discriminate.
     + intros Hf. destruct (Hclean Hf) as [C|[Q1 Q2]]; [left; exact C|right].
       rewrite (Hr Q2), app_nil_r. auto.
+    + exact Hn1'.
+    + exact Hn2.
+    + exact Hn3'.
   - (* STOP received by the reader end *)
+    assert (Hn1' : true = true -> vwmsr v = true \/ has_eof (vP v) = true) by (intros _; left; apply Hn2; exact Hst).
+    assert (Hn2' : stop' = true -> vwmsr v = true) by (intros H; apply Hn2, Hst'; exact H).
+    assert (Hn3' : vwmsr v = true -> true = true \/ stop' = true) by (intros _; left; reflexivity).
     constructor; cbn [vA vX vP vY vD vrsr vrmsw vwmsr vfz vstop vwfault]; auto;
       try (intros _; left; apply Hstop; exact Hst).
-  - constructor; cbn [vA vX vP vY vD vrsr vrmsw vwmsr vfz vstop vwfault]; auto.
+  - assert (Hn2' : stop' = true -> vwmsr v = true) by (intros H; apply Hn2, Hst'; exact H).
+    assert (Hn3' : vwmsr v = true -> vrmsw v = true \/ stop' = true).
+    { intros Hm. destruct (Hn3 Hm) as [C|C]; [left; exact C|]. destruct stop' eqn:E; [right; reflexivity|left].
+      apply Hgone; [exact C|reflexivity]. }
+    constructor; cbn [vA vX vP vY vD vrsr vrmsw vwmsr vfz vstop vwfault]; auto.
   - (* writer *)
     assert (Hfz0 : fz' = false -> vfz v = false).
     { intros H. destruct (vfz v) eqn:E; [|reflexivity]. rewrite (Hfz eq_refl) in H. discriminate. }
@@ -233,7 +259,15 @@ Proof.
       * destruct (Hshut eq_refl Hf) as [C|(Q1 & Q2 & Q3)]; [left; exact C|right].
         destruct (Hmsr Q1) as [C|(R1 & R2 & R3)]; [congruence|].
         specialize (Hpipe eq_refl). rewrite R1, R2, Q2, !app_nil_r in Hpipe. auto.
+    + intros Hm. destruct (Hn1 Hm) as [C|C]; [left; apply Hwm; exact C|right; exact C].
+    + intros Hs. destruct (Hst2 Hs) as [C|C]; [apply Hwm, Hn2, C|exact C].
+    + intros Hm. destruct (vwmsr v) eqn:Eold.
+      * destruct (Hn3 eq_refl) as [C|C]; [left; exact C|right; apply Hst3; exact C].
+      * right. apply Hst4; [reflexivity|exact Hm].
   - (* DATA delivered *)
+    assert (Hn1' : vrmsw v = true -> vwmsr v = true \/ has_eof P' = true).
+    { intros Hm. destruct (Hn1 Hm) as [C|C]; [left; exact C|right].
+      rewrite HP, has_eof_cons in C. unfold is_eof in C. rewrite Hc in C. exact C. }
     constructor; cbn [vA vX vP vY vD vrsr vrmsw vwmsr vfz vstop vwfault]; auto.
     + intros Hf. specialize (Hpipe Hf). rewrite HP, (data_cat_cons_data _ _ Hc) in Hpipe.
       unfold flat in *. rewrite concat_app. cbn [concat]. rewrite app_nil_r, <- Hpipe, <- !app_assoc. reflexivity.
@@ -247,6 +281,7 @@ Proof.
       rewrite HP in Q1. destruct (sf_cmd f) eqn:Ec.
       6:{ rewrite (data_cat_cons_data _ _ Ec) in Q1. apply app_eq_nil in Q1. apply Q1. }
       all: rewrite data_cat_cons_other in Q1 by congruence; exact Q1. }
+    assert (Hn1' : vrmsw v = true -> vwmsr v = true \/ has_eof P' = true) by (intros _; left; exact Hw).
     constructor; cbn [vA vX vP vY vD vrsr vrmsw vwmsr vfz vstop vwfault]; auto.
     + intros Hf. destruct (Hdc Hf) as [Q1 Q2]. specialize (Hpipe Hf). rewrite Q1 in Hpipe. rewrite Q2. exact Hpipe.
     + intros Hm. destruct (Hmsr Hm) as [C|(Q1 & Q2 & Q3)]; [left; exact C|].
@@ -258,6 +293,10 @@ Proof.
     { intros Hf. specialize (Hdae Hf). rewrite HP in Hdae. cbn [dae] in Hdae. rewrite Hc, dae_true in Hdae.
       assert (He : has_eof (vP v) = true) by (rewrite HP, has_eof_cons; unfold is_eof; rewrite Hc; reflexivity).
       destruct (Hmsw (Heof He)) as [C|Q]; [congruence|]. destruct Q. auto. }
+    assert (Hn1' : vrmsw v = true -> true = true \/ has_eof P' = true) by (intros _; left; reflexivity).
+    assert (Hn2' : vstop v = true -> true = true) by reflexivity.
+    assert (Hn3' : true = true -> vrmsw v = true \/ vstop v = true).
+    { intros _. left. apply Heof. rewrite HP, has_eof_cons. unfold is_eof. rewrite Hc. reflexivity. }
     constructor; cbn [vA vX vP vY vD vrsr vrmsw vwmsr vfz vstop vwfault]; auto.
     + intros Hf. specialize (Hpipe Hf). rewrite HP, data_cat_cons_other in Hpipe by congruence. exact Hpipe.
     + intros _. destruct (vfz v) eqn:Ef; [left; reflexivity|right]. apply Hq. reflexivity.
@@ -269,6 +308,7 @@ Proof.
     { intros s. rewrite HP. cbn [dae]. destruct (sf_cmd f); try reflexivity; congruence. }
     assert (E3 : has_eof (vP v) = has_eof P').
     { rewrite HP, has_eof_cons. unfold is_eof. destruct (sf_cmd f); try reflexivity. congruence. }
+    assert (Hn1' : vrmsw v = true -> vwmsr v = true \/ has_eof P' = true) by (rewrite <- E3; exact Hn1).
     constructor; cbn [vA vX vP vY vD vrsr vrmsw vwmsr vfz vstop vwfault]; auto.
     + intros Hf. rewrite <- E1. apply Hpipe. exact Hf.
     + intros Hm. rewrite <- E1. apply Hmsr. exact Hm.
